@@ -207,6 +207,8 @@ func mergeConfigList(configs [][]byte, f *feature) (string, error) {
 			}
 			if !ebpfSupport {
 				_ = plugin.Delete("eniip_virtual_type")
+				// only the plugin's default (tc) works without eBPF
+				_ = plugin.Delete("bandwidth_mode")
 			} else {
 				switch strings.ToLower(virtualType) {
 				case dataPathVeth, dataPathDefault:
